@@ -4,6 +4,7 @@ import (
 	"fmt"
 	"reflect"
 	"sort"
+	"strings"
 
 	age "github.com/craterdog/go-collection-framework/v4/agent"
 	col "github.com/craterdog/go-collection-framework/v4/collection"
@@ -120,6 +121,55 @@ func views[E any](el *elem[E], s col.Sequential[E]) (seq []any, bad string) {
 	return seq, bad
 }
 
+// textView: String() must describe the same values, in the same order, as
+// AsArray(): the body of the text is compared with the text of a fresh list
+// made from AsArray() (the formatter writes every Sequential the same way).
+func textView[E any](notation col.NotationLike, v any, arr []E) (bad string) {
+	var st, ok = v.(fmt.Stringer)
+	if !ok || len(arr) == 0 {
+		return "" // the empty forms differ by kind ("[ ]", "[:]")
+	}
+	var body = func(text string) string {
+		var i = strings.LastIndex(text, "(")
+		if i < 0 {
+			return text
+		}
+		return text[:i]
+	}
+	// the reference text; element types the notation cannot write (pointers) have none
+	var want string
+	var formattable = func() (ok bool) {
+		defer func() {
+			if recover() != nil {
+				ok = false
+			}
+		}()
+		want = body(notation.FormatValue(col.List[E](notation).MakeFromArray(arr)))
+		return true
+	}()
+	if !formattable {
+		return ""
+	}
+	defer func() {
+		if r := recover(); r != nil {
+			bad = fmt.Sprintf("String() panicked: %v", r)
+		}
+	}()
+	var got = body(st.String())
+	if got != want {
+		return fmt.Sprintf("String() shows %q but AsArray() holds %q", clip(got), clip(want))
+	}
+	return ""
+}
+
+func clip(s string) string {
+	s = strings.Join(strings.Fields(s), " ")
+	if len(s) > 120 {
+		return s[:120]
+	}
+	return s
+}
+
 func projectSeqObj[K comparable, V, E any](in *Interp[K, V], el *elem[E], o *obj) map[string]any {
 	switch o.kind {
 	case "GoArray":
@@ -149,6 +199,9 @@ func projectSeqObj[K comparable, V, E any](in *Interp[K, V], el *elem[E], o *obj
 		return map[string]any{"kind": o.kind, "s": []any{}, "broken": "not a Sequential"}
 	}
 	var seq, bad = views(el, s)
+	if tb := textView(in.notation, o.v, s.AsArray()); tb != "" && bad == "" {
+		bad = tb
+	}
 	var res = map[string]any{"kind": o.kind, "s": seq}
 	switch x := o.v.(type) {
 	case col.SetLike[E]:
@@ -193,6 +246,9 @@ func (in *Interp[K, V]) projectCatalog(o *obj) map[string]any {
 	var _, vbad = views(in.elA(), col.Sequential[col.AssociationLike[K, V]](c))
 	if vbad != "" {
 		bad = vbad
+	}
+	if tb := textView(in.notation, o.v, arr); tb != "" && bad == "" {
+		bad = tb
 	}
 	// no key outside the ordered view may be reachable through the index
 	for t := 0; t <= in.probe; t++ {
